@@ -404,15 +404,20 @@ impl<
         let sequence = self.allocator.get_field(Field::Sequence);
 
         if free_node == sequence {
-            if (sequence - 1) == self.allocator.get_field(Field::Capacity) {
+            if sequence.wrapping_sub(1) == self.allocator.get_field(Field::Capacity) {
                 panic!(
                     "tree is full ({} nodes)",
                     self.allocator.get_field(Field::Size)
                 );
             }
 
-            self.allocator.set_field(Field::Sequence, sequence + 1);
-            self.allocator.set_field(Field::FreeListHead, sequence + 1);
+            // handing out node 255 (the last node of a tree with the maximum
+            // capacity) wraps the sequence around; the tree is full at that
+            // point and the value is only used as the free list terminator
+            self.allocator
+                .set_field(Field::Sequence, sequence.wrapping_add(1));
+            self.allocator
+                .set_field(Field::FreeListHead, sequence.wrapping_add(1));
         } else {
             self.allocator.set_field(
                 Field::FreeListHead,
